@@ -27,6 +27,8 @@ ASSUMPTIONS = [
     "callers are started at iteration boundaries (under-approximation of task placement inside a batch)",
     "a serial send that ends in TimeoutError because a timer deviation let the confirmation timeout fire first counts as completed",
 ]
+SANITY = ["wire_frames_tridonic", "wire_frames_hasseb", "wire_frames_luba", "wire_frames_sci", "executions_with_cancel",
+          "executions_with_two_callers_on_the_wire"]
 BOUNDS = {"quick": "4 drivers x (49 ordered caller pairs at d<=1, 12 pairs at d<=2, 27 triples at d<=1)",
           "thorough": "4 drivers x (all pairs at d<=2, 6 pairs at d<=3, all 343 triples at d<=1, 27 triples at d<=2, 16 quadruples at d<=1)"}
 
@@ -194,6 +196,11 @@ def judge(res, driver, kinds, w, obs):
     names = [f"{kd}{i + 1}" for i, kd in enumerate(kinds)]
     units = {nm: expand(kd, i + 1, driver) for i, (nm, kd) in enumerate(zip(names, kinds))}
     outcomes = {nm: oc for nm, oc in zip(names, obs["callers"])}
+    observe(res, f"wire_frames_{driver}", len(wire))
+    if any(x.startswith("cancel:") for x in w.trace):
+        observe(res, "executions_with_cancel")
+    if len({u for u in range(len(names)) if any(f in wire for f in units[names[u]])}) > 1:
+        observe(res, "executions_with_two_callers_on_the_wire")
     if w.status != "quiescent":
         add_violation(res, f"C15:{tag}:horizon", f"{driver} {kinds}: no quiescence within the step horizon", case)
         return "horizon"
